@@ -4,11 +4,13 @@
     Flags select the code variant:
       cease_inner — the monitor reports on the inner tracer, where the activation waits (repaired);
       per_act     — every activation has its own monitor (repaired);
-      rearm       — the inner start events are re-armed for every activation (repaired). *)
+      rearm       — the inner start events are re-armed for every activation (repaired);
+      fresh_seen  — what a monitor has seen of the start events is per activation (as in the code; off =
+                    a monitor that remembers the start events of an earlier activation). *)
 From Coq Require Export List Arith Bool Lia.
 Export ListNotations.
 
-Record scfg := { cease_inner : bool; per_act : bool; rearm : bool }.
+Record scfg := { cease_inner : bool; per_act : bool; rearm : bool; fresh_seen : bool }.
 
 Record act := {
   tokens : nat;      (* inner tokens alive (the wait group of the inner flows) *)
@@ -26,7 +28,7 @@ Record spst := {
   conts : nat;           (* parent tokens that continued past the sub-process *)
   arrived : nat;         (* parent tokens that arrived *)
   bodies : nat;          (* activations whose content actually ran *)
-  early : bool           (* a parent token continued while inner tokens were alive *)
+  early : bool           (* a parent token continued while inner tokens were alive, or before the content was entered *)
 }.
 
 Inductive splabel := PEnter | PBegin | PStartFlows | PStartSeen | PFork | PDie | PCease | PContinue.
@@ -41,16 +43,16 @@ Definition spstep (c : scfg) (s : spst) (l : splabel) : option spst :=
   | PBegin, None =>
       if 1 <=? queue s then
         Some {| queue := queue s - 1;
-                cur := Some {| tokens := 1; started := false; body := rearm c || (nth s =? 0); entered_body := false;
+                cur := Some {| tokens := 0; started := negb (fresh_seen c) && negb (nth s =? 0); body := rearm c || (nth s =? 0); entered_body := false;
                                mon := per_act c || (nth s =? 0); ceased := false |};
                 nth := S (nth s); conts := conts s; arrived := arrived s; bodies := bodies s; early := early s |}
       else None
   | PStartFlows, Some a =>
-      (* the token created at the start event either flows into the content or, the start event having
-         flowed before, is completed at once *)
+      (* the flow created at the start event registers in the wait group and either flows into the content
+         or, the start event having flowed before, is completed at once *)
       if negb (entered_body a) then
         Some {| queue := queue s;
-                cur := Some {| tokens := (if body a then tokens a else tokens a - 1); started := started a; body := body a;
+                cur := Some {| tokens := (if body a then S (tokens a) else tokens a); started := started a; body := body a;
                                entered_body := true; mon := mon a; ceased := ceased a |};
                 nth := nth s; conts := conts s; arrived := arrived s;
                 bodies := (if body a then S (bodies s) else bodies s); early := early s |}
@@ -74,7 +76,7 @@ Definition spstep (c : scfg) (s : spst) (l : splabel) : option spst :=
   | PContinue, Some a =>
       if ceased a && cease_inner c then
         Some {| queue := queue s; cur := None; nth := nth s; conts := S (conts s); arrived := arrived s; bodies := bodies s;
-                early := early s || negb (tokens a =? 0) |}
+                early := early s || negb (tokens a =? 0) || negb (entered_body a) |}
       else None
   | _, _ => None
   end.
@@ -88,5 +90,5 @@ Fixpoint spexec (c : scfg) (s : spst) (p : list splabel) : option spst :=
   end.
 Definition spreach (c : scfg) (s : spst) : Prop := exists p, spexec c spinit p = Some s.
 
-Definition sp_fixed : scfg := {| cease_inner := true; per_act := true; rearm := true |}.
+Definition sp_fixed : scfg := {| cease_inner := true; per_act := true; rearm := true; fresh_seen := true |}.
 Definition busy (s : spst) : nat := match cur s with Some _ => 1 | None => 0 end.
